@@ -28,6 +28,7 @@ Inductive lclass :=
 | CConsumerRing     (* slots / values of a consumer offset ring *)
 | CLagValue         (* protocol.Lag reachable from a ring (also reachable from delivered replies) *)
 | CEscape (ty : string)    (* a reference into shared state stored into a reply / handed to foreign code *)
+| CBlocking (what : string) (* a channel send / receive while a storage lock is held (can block for ever) *)
 | CUnknown (why : string). (* anything the translator could not classify *)
 
 Record row := mkRow {
@@ -67,9 +68,15 @@ Definition group_scoped (c : lclass) : bool :=
 Definition row_ok (r : row) : bool :=
   match r_class r with
   | CUnknown _ => false
+  | CBlocking _ => false
   | CEscape ty => String.eqb ty "*protocol.Lag"
   | _ => true
   end.
+
+(* the synthetic row the translator adds for whoever reads a delivered reply (evaluator, HTTP server): it dereferences
+   the Lag pointers of the reply holding no storage lock *)
+Definition is_reply_reader (r : row) : bool :=
+  match r_class r, r_rw r, r_locks r with CLagValue, R, [] => negb (r_own r) | _, _, _ => false end.
 
 Definition conflict (r1 r2 : row) : bool :=
   lclass_eqb (r_class r1) (r_class r2) && (is_w (r_rw r1) || is_w (r_rw r2)).
